@@ -7,6 +7,9 @@ CONSTANTS
   NOffer = 1000
   NTake = 1000
   Kinds = {"poll", "ttake"}
+  WithWaiters = FALSE
+  OneShot = FALSE
+  LoaderFreeOnly = FALSE
   WithClose = FALSE
   GuardedClose = TRUE
 POSTCONDITION TraceAccepted
